@@ -74,10 +74,11 @@ def select__intersect_and_except_operators(self: XPathToken, context: ta.Context
     if context is None:
         raise self.missing_context()
 
-    s1, s2 = set(self[0].select(copy(context))), set(self[1].select(copy(context)))
+    s1, s2 = list(self[0].select(copy(context))), list(self[1].select(copy(context)))
     if any(not isinstance(x, XPathNode) for x in s1) \
             or any(not isinstance(x, XPathNode) for x in s2):
         raise self.error('XPTY0004', 'only XPath nodes are allowed')
+    s1, s2 = set(s1), set(s2)
 
     if self.symbol == 'except':
         yield from cast(list[XPathNode], sorted(s1 - s2, key=node_position))
